@@ -40,13 +40,15 @@ Unsupported(c) ==
      IN \/ \E v \in vals : named(v)
         \/ \E n \in Reach(G, vals) : Kind(G, n) = "val" /\ named(G[n].v)
 
+RootVals(c) == {c.rootvals[i] : i \in 1..Len(c.rootvals)}
 ViewOK(c, view) ==
   /\ view.dup = <<>>
   /\ Iso(SrcGraph(c), DstFile(view), view.roots, Ext(c))
 
 CaseOK(c) ==
-  CASE c.outcome = "ok" -> /\ RepeatSame(c.events)
-                           /\ \A i \in 1..Len(c.views) : ViewOK(c, c.views[i])
+  CASE c.outcome = "ok" -> \/ Ambiguous(SrcGraph(c), RootVals(c))      \* outside the property, see CopierRef
+                           \/ /\ RepeatSame(c.events)
+                              /\ \A i \in 1..Len(c.views) : ViewOK(c, c.views[i])
     [] c.outcome = "error" -> Unsupported(c)
     [] OTHER -> FALSE          \* a panic is never acceptable
 
